@@ -121,7 +121,7 @@ class AxiIcHarness(Harness):
     def env_init(self):
         return (tuple((0, None, (), 0) for _ in range(self.nm)), tuple((0, None, (), 0) for _ in range(self.nm)),
                 tuple(((), (), 0, 0) for _ in range(self.ns)), tuple(((), 0, 0) for _ in range(self.ns)),
-                (), tuple((0, 0) for _ in range(self.nm)), tuple((0, 0) for _ in range(self.ns)))
+                (), tuple((0, 0) for _ in range(self.nm)), tuple((0, 0) for _ in range(self.ns)), 1)
 
     # ---- choices ------------------------------------------------------------------------------------
     def start_targets(self, pend):
@@ -130,7 +130,7 @@ class AxiIcHarness(Harness):
         return self.targets
 
     def choices(self, env):
-        wm, rm, ws, rs, stalls, ages, sst = env
+        wm, rm, ws, rs, stalls, ages, sst, eset = env
         per = []
         for m in range(self.nm):
             tag, issue, pend, cool = wm[m]
@@ -296,7 +296,7 @@ class AxiIcHarness(Harness):
 
     # ---- monitors -----------------------------------------------------------------------------------
     def observe(self, v, env, ch):
-        wm, rm, ws, rs, stalls, ages, sst = env
+        wm, rm, ws, rs, stalls, ages, sst, eset = env
         mc, sc, kill = ch
         nm, ns = self.nm, self.ns
         wp = [self.wpresent(env, ch, m) for m in range(nm)]
@@ -565,7 +565,39 @@ class AxiIcHarness(Harness):
         if any(hs(P, c) for P in self.M for c in ("aw", "w", "ar")):
             flags |= PROGRESS
         self.cov["timeouts"] += to_b + to_r
-        return (tuple(wm2), tuple(rm2), tuple(ws2), tuple(rs2), stalls2, tuple(ages2), tuple(sst2)), None, flags
+        # error output of the time-out module (feeds the SoC's bus error counter): one pulse per timed-out request.  It is
+        # the OR of the write and the read direction, so the monitor keeps the set of possible (write owes a synthesised
+        # response, read owes one) pairs: bit pw + 2*pr of eset.
+        if self.error is not None and self.has_timeout:
+            if v[self.error]:
+                nxt = 0
+                for st in range(4):
+                    if (eset >> st) & 1:
+                        pw, pr = st & 1, st >> 1
+                        if not pw and self.writes:
+                            nxt |= 1 << (1 + 2 * pr)
+                        if not pr and self.reads:
+                            nxt |= 1 << (pw + 2)
+                        if not pw and not pr and self.writes and self.reads:
+                            nxt |= 1 << 3
+                if not nxt:
+                    return env, ("timeout.error_pulse", "error pulsed again while every direction in use already owes its time-out response"), 0
+                eset = nxt
+                self.cov["error_pulses"] = self.cov.get("error_pulses", 0) + 1
+            for n_to, bit in ((to_b, 1), (to_r, 2)):
+                for _ in range(n_to):
+                    nxt = 0
+                    for st in range(4):
+                        if (eset >> st) & 1 and st & bit:
+                            nxt |= 1 << (st & ~bit)
+                    if not nxt:
+                        return env, ("timeout.error_pulse", f"a {'write' if bit == 1 else 'read'} request was answered by the time-out responder but error never pulsed for it"), 0
+                    eset = nxt
+            if not any(x[1] is not None or x[2] for x in wm2) and not any(x[1] is not None or x[2] for x in rm2):
+                if not eset & 1:
+                    return env, ("timeout.error_pulse", "error pulsed although no request timed out (nothing outstanding any more, no time-out response seen)"), 0
+                eset = 1
+        return (tuple(wm2), tuple(rm2), tuple(ws2), tuple(rs2), stalls2, tuple(ages2), tuple(sst2), eset), None, flags
 
     def cover_report(self):
         return dict(self.cov)
